@@ -121,6 +121,7 @@ func c17OwnSpecs(quick bool) []*wSpec {
 			{Prop: "C17", Name: "C17-rotated-twice-reload-q", Cfg: two, Init: []string{"mint|0|4", "rotate|a|100", "mint|0|4", "rotate|a|0", "mint|0|4", "reload|0"}, Menu: c17RotMenu, Depth: 1},
 			// a wallet that trusts two mints holds proofs of a rotated-out keyset of one of them, notices the rotation, is closed
 			// and opened again: per-mint balances, spends at either mint
+			{Prop: "C17", Name: "C17-refused-melt-retried-fee1000-q", Cfg: wworld.Config{FeeA: 1000, Wallets: []wworld.WalletCfg{{Default: "a"}, {Default: "a"}}}, Init: []string{"give|0|16", "melt|0|4|S", "give|0|4,2,2", "remelt|0|0"}, Menu: c17RotMenu, Depth: 1},
 			{Prop: "C17", Name: "C17-two-mints-rotation-reload-q", Cfg: wworld.Config{FeeA: 0, FeeB: 0, TwoMints: true, Wallets: []wworld.WalletCfg{{Default: "a"}, {Default: "a"}, {Default: "b"}}}, Init: []string{"mint|2|8", "mint|0|16", "send|0|3|0", "recv|2|0|0", "rotate|a|0", "send|0|5|0", "recv|2|0|0", "reload|2"}, Menu: c17RotMenu, Depth: 1},
 			{Prop: "C17", Name: "C17-rotated-fee100-q", Cfg: two, Init: []string{"mint|0|7", "rotate|a|100", "mint|0|8"}, Menu: c17RotMenu, Depth: 3},
 		}
@@ -136,6 +137,8 @@ func c17OwnSpecs(quick bool) []*wSpec {
 		{Prop: "C17", Name: "C17-bigcoin-feechange", Cfg: wworld.Config{FeeA: 0, Wallets: []wworld.WalletCfg{{Default: "a"}, {Default: "a"}}}, Init: []string{"give|0|16,8", "rotate|a|100"}, Menu: c17RotMenu, Depth: 3},
 		{Prop: "C17", Name: "C17-bigcoin-feedrop", Cfg: wworld.Config{FeeA: 1000, Wallets: []wworld.WalletCfg{{Default: "a"}, {Default: "a"}}}, Init: []string{"give|0|16,8", "rotate|a|0"}, Menu: c17RotMenu, Depth: 3},
 		{Prop: "C17", Name: "C17-rotated-twice-reload", Cfg: two, Init: []string{"mint|0|4", "rotate|a|100", "mint|0|4", "rotate|a|0", "mint|0|4", "reload|0"}, Menu: c17RotMenu, Depth: 3},
+		// 1000 ppk: a melt the mint refuses (the wallet's swap for the inputs comes out short), more coins arrive, the quote is retried
+		{Prop: "C17", Name: "C17-refused-melt-retried-fee1000", Cfg: wworld.Config{FeeA: 1000, Wallets: []wworld.WalletCfg{{Default: "a"}, {Default: "a"}}}, Init: []string{"give|0|16", "melt|0|4|S", "give|0|4,2,2", "remelt|0|0"}, Menu: c17RotMenu, Depth: 1},
 		{Prop: "C17", Name: "C17-two-mints-rotation-reload", Cfg: three(0), Init: []string{"mint|2|8", "mint|0|16", "send|0|3|0", "recv|2|0|0", "rotate|a|0", "send|0|5|0", "recv|2|0|0", "reload|2"}, Menu: c17RotMenu, Depth: 2},
 		{Prop: "C17", Name: "C17-rotated-fee100", Cfg: two, Init: []string{"mint|0|7", "rotate|a|100", "mint|0|8"}, Menu: c17RotMenu, Depth: 4},
 		{Prop: "C17", Name: "C17-rotated-fee1000to100", Cfg: wworld.Config{FeeA: 1000, Wallets: []wworld.WalletCfg{{Default: "a"}, {Default: "a"}}}, Init: []string{"mint|0|7", "rotate|a|100", "mint|0|8"}, Menu: c17RotMenu, Depth: 4},
